@@ -308,3 +308,82 @@ func checkResetComplete(p *Prog, r *Report, rule string) {
 		}
 	}
 }
+
+// checkCopyURL: utils.CopyURL returns a copy that equals its argument in EVERY field of url.URL: the
+// result is a fresh allocation initialised either by a whole-struct copy of *arg, or by field stores that
+// cover all fields of url.URL (for the installed net/url) each taking the same field of the argument; the
+// User field may be replaced by a copy of the pointee. A field-by-field rewrite that forgets RawPath /
+// ForceQuery / RawFragment / OmitHost changes the request target the handler and every retry see.
+func checkCopyURL(p *Prog, r *Report, rule string) {
+	fn := p.Func("utils", "CopyURL")
+	if fn == nil || fn.Blocks == nil || len(fn.Params) != 1 {
+		r.Anchor(rule, "utils.CopyURL", "function not found")
+		return
+	}
+	r.Fn(FName(fn))
+	arg := fn.Params[0]
+	ut := derefNamed(arg.Type())
+	if ut == nil {
+		r.Anchor(rule, "utils.CopyURL", "parameter is not a *url.URL")
+		return
+	}
+	var obj *ssa.Alloc
+	okObj := true
+	for _, ret := range Returns(fn) {
+		for _, v := range nonNilOperands(ReturnOperand(ret, 0)) {
+			a, ok := stripConv(v).(*ssa.Alloc)
+			if !ok || (obj != nil && a != obj) {
+				okObj = false
+			} else {
+				obj = a
+			}
+		}
+	}
+	if !okObj || obj == nil {
+		r.Fail(rule, "utils.CopyURL: returns a fresh url.URL", p.FuncPos(fn), "the result is not a single fresh allocation")
+		return
+	}
+	whole := false
+	stored := map[string]bool{}
+	wrong := ""
+	for _, b := range fn.Blocks {
+		for _, in := range b.Instrs {
+			st, ok := in.(*ssa.Store)
+			if !ok {
+				continue
+			}
+			if st.Addr == ssa.Value(obj) {
+				if u, ok := stripConv(st.Val).(*ssa.UnOp); ok && u.X == ssa.Value(arg) && uncond(fn, st) {
+					whole = true
+				}
+				continue
+			}
+			nt, f, base, ok := fieldOf(st.Addr)
+			if !ok || nt != ut || base != ssa.Value(obj) {
+				continue
+			}
+			// same field of the argument (User: a pointer to a fresh copy is fine)
+			if u, ok := stripConv(st.Val).(*ssa.UnOp); ok {
+				if _, f2, b2, ok := fieldOf(u.X); ok && b2 == ssa.Value(arg) && f2 == f && uncond(fn, st) {
+					stored[f] = true
+					continue
+				}
+			}
+			if _, isAlloc := stripConv(st.Val).(*ssa.Alloc); isAlloc && f == "User" {
+				stored[f] = true
+				continue
+			}
+			wrong = f
+		}
+	}
+	missing := []string{}
+	if !whole {
+		for _, f := range structFields(ut) {
+			if !stored[f.Name()] {
+				missing = append(missing, f.Name())
+			}
+		}
+	}
+	r.Check((whole || len(missing) == 0) && wrong == "", rule, "utils.CopyURL: the copy has every field of the original", p.FuncPos(fn), "whole-struct copy of *arg (User re-pointed to a copy)",
+		fmt.Sprintf("the copy is built field by field and does not take these fields from the original: %v%s: a request target such as /a%%2Fb/meta? loses its RawPath / ForceQuery on the first attempt and on every retry", missing, map[bool]string{true: " (field " + wrong + " is given another value)", false: ""}[wrong != ""]))
+}
